@@ -11,6 +11,7 @@ def check(rep):
     PR.rule_compiles(ctx, rid="C12.SHAPE-COMPILES", strict=False)
     PR.rule_key(ctx)
     PR.rule_key_order_independent(ctx, rid="C12.ALPHABETICAL")
+    PR.rule_locals_shadow_fields(ctx, "C12.FIELDS-NOT-SHADOWED", consequence="the key is then not salt + str() of the splitter values")
     PR.rule_renderers(ctx, rid="C12.SALT-EXACT", kinds=("str",), only_tags=("salt",))
     PR.rule_coercions(ctx, rid="C12.SALT-VALUE", fields={"salt", "splitting_fields"})
     # the salt that is hashed is the text between the quotes, untouched: the string rule's action only drops its delimiters
